@@ -7,7 +7,14 @@ Three kinds of case, all run against the real modifiers through `SigmaDetectionI
   plain  : f|[pre|]base64        -> must equal b64Spec(bytes)
   wide   : f|wide / utf16be / utf16 -> UTF-8 bytes of the produced string must be the UTF-16 encoding
            of the payload (with BOM FF FE for utf16), or the modifier rejects with a Sigma error.
-`bytes` is always the byte string of the value that enters the base64 stage, so chains compose."""
+`bytes` is always the byte string of the value that enters the base64 stage, so chains compose.
+
+A produced value must be a plain string: a wide/utf16* value that contains a wildcard part although the
+payload has none does not "have the bytes" of the UTF-16 encoding (it matches other byte strings too).
+The payload reaches the modifiers by one of the entry points `VIAS` (case field `via`, default "mapping"):
+single value / list element / keyword item of `from_mapping`, a rule built with `SigmaRule.from_dict` or
+`from_yaml` (payload as a fully escaped double-quoted scalar), or the modifier classes handed to the `SigmaDetectionItem`
+constructor; the expected value depends on the payload alone, so every entry point is judged alike."""
 from __future__ import annotations
 import itertools, random
 from .common import Verdict, cps, outcome_of_exception
@@ -19,7 +26,13 @@ RULE = ("payloads = all strings up to a length bound over {a, -, ä, €, \\\\, 
         "wide|base64, wide, utf16be, utf16}; x contexts prefix length 0..5 x suffix length 0..5 with surrounding bytes "
         "from {0x00, 0xFF, '=', random}; distinct = distinct (chain, payload); non-trivial = payload of >= 2 bytes"
         "; plus long payloads around 57 / 76 bytes and beyond"
-        "; text that is not in Unicode normal form")
+        "; text that is not in Unicode normal form"
+        "; chain utf16|base64; wide/utf16* values must not contain wildcard parts"
+        "; boundary stream: payloads that begin / end with / contain line breaks, blanks, control and format "
+        "characters x all chains x entry points {from_mapping single, list element, keyword item, SigmaRule.from_dict, "
+        "from_yaml, modifier classes on SigmaDetectionItem}"
+        "; UTF-16 byte stream: characters whose UTF-16 code unit bytes are 2A / 3F / 5C ('*', '?', backslash) in "
+        "either byte order, alone and mixed with escaped wildcards")
 ASSUMPTIONS = [
     "Python's base64.b64encode / str.encode / bytes.decode are re-implemented in Lean (b64Spec, utf8enc, utf16) and compared on every case",
     "lone surrogates are never generated",
@@ -27,8 +40,16 @@ ASSUMPTIONS = [
 ]
 ALPHA = ["a", "-", "ä", "€", "\\", "=", "A", "\U0001F600", "\\*", "\\?"]
 OFFSET_CHAINS = ["base64offset", "wide|base64offset", "utf16be|base64offset", "utf16|base64offset"]
-PLAIN_CHAINS = ["base64", "wide|base64", "utf16be|base64"]
+PLAIN_CHAINS = ["base64", "wide|base64", "utf16be|base64", "utf16|base64"]
 WIDE = ["wide", "utf16be", "utf16"]
+VIAS = ["mapping", "list", "keyword", "rule", "yaml", "direct"]
+# characters that text clean-up (strip, splitlines, YAML folding, C strings) treats specially; a payload is encoded as written
+BOUNDARY = [" ", "\t", "\n", "\r", "\r\n", "\n\n", "\x0b", "\x0c", "\x00", "\x1f", "\x7f", "\x85", "\xa0", "\u2028",
+            "\u3000", "\ufeff", "'", '"']
+BOUNDARY_CORES = ["", "a", "ab", "echo 1", "-enc ", "\u00e4\u20ac", "x\\*"]
+# characters whose UTF-16 code unit consists of the bytes of '*', '?' or '\\' (high or low byte, hence in LE or BE order)
+UTF16_SENSITIVE = ["\u012a", "\u2a01", "\u013f", "\u3f01", "\u015c", "\u5c01", "\u5c5c", "\u5c2a", "\u2a5c", "\u5c3f",
+                   "\u3f5c", "\u2a2a", "\u3f3f", "\u2a3f", "\u3f2a"]
 
 
 def contexts(rnd, full):
@@ -73,7 +94,43 @@ def gen_cases(tier, seed, gen, effort):
             cases.append({"kind": "plain", "chain": ch, "payload": pl})
         for ch in WIDE:
             cases.append({"kind": "wide", "chain": ch, "payload": pl})
+    # boundary stream: the characters of BOUNDARY at the end, at the start, at both ends and inside the payload,
+    # every chain, the entry points in rotation (each (payload, chain) by two of them)
+    k = 0
+    for core in BOUNDARY_CORES:
+        for b in BOUNDARY:
+            for pl in dict.fromkeys([core + b, b + core, b + core + b, core + b + core]):
+                for kind, ch in _all_chains():
+                    for via in (VIAS[k % len(VIAS)], VIAS[(k + 1 + (k // len(VIAS)) % (len(VIAS) - 1)) % len(VIAS)]):
+                        c = {"kind": kind, "chain": ch, "payload": pl, "via": via}
+                        if kind == "offset":
+                            c["ctxs"] = contexts(rnd, thorough or effort > 1)
+                        cases.append(c)
+                    k += 1
+    # every entry point on ordinary payloads as well
+    for pl in ["a", "ab", "abc", "whoami", "\u00e4b", "a\\*b", "C:\\Temp\\"] + [rnd.choice(payloads) for _ in range(40 * effort)]:
+        for kind, ch in _all_chains():
+            for via in VIAS[1:]:
+                c = {"kind": kind, "chain": ch, "payload": pl, "via": via}
+                if kind == "offset":
+                    c["ctxs"] = contexts(rnd, False)
+                cases.append(c)
+    # UTF-16 byte stream
+    sens = list(UTF16_SENSITIVE)
+    sens += [x + y for x in UTF16_SENSITIVE[:8] for y in ("a", "\\*", "\\?", "\\\\")] + ["a" + x + "b" for x in UTF16_SENSITIVE]
+    for _ in range((60 if not thorough else 600) * effort):
+        sens.append("".join(rnd.choice(UTF16_SENSITIVE + ["a", "\\*", "\\?", "\\\\", "\u00e4"]) for _ in range(rnd.randint(2, 6))))
+    for pl in dict.fromkeys(sens):
+        for kind, ch in _all_chains():
+            c = {"kind": kind, "chain": ch, "payload": pl}
+            if kind == "offset":
+                c["ctxs"] = contexts(rnd, False)
+            cases.append(c)
     return cases, True
+
+
+def _all_chains():
+    return [("offset", ch) for ch in OFFSET_CHAINS] + [("plain", ch) for ch in PLAIN_CHAINS] + [("wide", ch) for ch in WIDE]
 
 
 def sigma_plain(s: str) -> str:
@@ -108,23 +165,67 @@ def _value_strings(v):
     return [str(v)]
 
 
-def run_impl(case):
+YAML_RULE = "title: t\nlogsource:\n    category: test\ndetection:\n    sel:\n        \"f|%s\": %s\n    condition: sel\n"
+
+
+def _yaml_scalar(s: str) -> str:
+    """the string as a YAML double-quoted scalar in which everything but plain printable ASCII is written as an escape,
+    so that the YAML reader (line folding, non-printable characters) returns exactly `s`"""
+    out = []
+    for c in s:
+        o = ord(c)
+        if 0x20 <= o < 0x7F and c not in '"\\':
+            out.append(c)
+        elif o < 0x100:
+            out.append("\\x%02x" % o)
+        elif o < 0x10000:
+            out.append("\\u%04x" % o)
+        else:
+            out.append("\\U%08x" % o)
+    return '"' + "".join(out) + '"'
+
+
+def _produced(chain: str, payload: str, via: str):
+    """the value the modifier chain produces for the payload, the payload entering by the entry point `via`"""
     from sigma.rule.detection import SigmaDetectionItem
+    if via == "mapping":
+        (v,) = SigmaDetectionItem.from_mapping("f|" + chain, payload).value
+    elif via == "list":
+        _, v = SigmaDetectionItem.from_mapping("f|" + chain, ["zz", payload]).value
+    elif via == "keyword":
+        (v,) = SigmaDetectionItem.from_mapping("|" + chain, payload).value
+    elif via in ("rule", "yaml"):
+        from sigma.rule import SigmaRule
+        d = {"title": "t", "logsource": {"category": "test"}, "detection": {"sel": {"f|" + chain: payload}, "condition": "sel"}}
+        if via == "yaml":
+            rule = SigmaRule.from_yaml(YAML_RULE % (chain, _yaml_scalar(payload)))
+        else:
+            rule = SigmaRule.from_dict(d)
+        (it,) = rule.detection.detections["sel"].detection_items
+        (v,) = it.value
+    elif via == "direct":
+        from sigma.modifiers import modifier_mapping
+        from sigma.types import SigmaString
+        (v,) = SigmaDetectionItem("f", [modifier_mapping[m] for m in chain.split("|")], [SigmaString(payload)]).value
+    else:
+        raise ValueError(via)
+    return v
+
+
+def run_impl(case):
     chain = case["chain"].split("|")
+    via = case.get("via", "mapping")
     try:
         if case["kind"] == "wide":
-            it = SigmaDetectionItem.from_mapping("f|" + case["chain"], case["payload"])
-            (v,) = it.value
-            return {"outcome": "ok", "value": cps("".join(p for p in v.s if isinstance(p, str))), "bytes": list(bytes(v))}
+            v = _produced(case["chain"], case["payload"], via)
+            return {"outcome": "ok", "value": cps("".join(p for p in v.s if isinstance(p, str))), "bytes": list(bytes(v)),
+                    "special": sum(1 for p in v.s if not isinstance(p, str))}
         # value entering the base64 stage
         if len(chain) > 1:
-            pre = SigmaDetectionItem.from_mapping("f|" + "|".join(chain[:-1]), case["payload"])
-            (pv,) = pre.value
-            inbytes = list(bytes(pv))
+            inbytes = list(bytes(_produced("|".join(chain[:-1]), case["payload"], via)))
         else:
             inbytes = list(sigma_plain(case["payload"]).encode("utf-8"))
-        it = SigmaDetectionItem.from_mapping("f|" + case["chain"], case["payload"])
-        (v,) = it.value
+        v = _produced(case["chain"], case["payload"], via)
         return {"outcome": "ok", "values": [cps(s) for s in _value_strings(v)], "inbytes": inbytes}
     except Exception as e:
         return {"outcome": outcome_of_exception(e), "msg": str(e)[:100]}
@@ -148,31 +249,36 @@ def make_request(case, impl, gen):
 
 def judge(case, impl, reply):
     io = impl["outcome"]
-    key = (case["chain"], case["payload"])
+    via = case.get("via", "mapping")
+    key = (case["chain"], case["payload"]) if via == "mapping" else (case["chain"], case["payload"], via)
+    fc = "f|" + case["chain"] + ("" if via == "mapping" else f" [entry point: {via}]")
     nb = len(case["payload"].encode("utf-8", "surrogatepass"))
     nt = nb >= 2
     tags = (f"kind:{case['kind']}", f"chain:{case['chain']}", f"len%3:{nb % 3}",
-            "ascii" if case["payload"].isascii() else "non-ascii", f"impl:{io.split(':')[0]}")
+            "ascii" if case["payload"].isascii() else "non-ascii", f"impl:{io.split(':')[0]}", f"via:{via}")
     if has_wildcard(case["payload"]):
         # payloads are wildcard-free by the property's quantifier; the base64 modifiers must reject them
         if case["kind"] != "wide" and io == "ok":
-            return Verdict("violation", f"f|{case['chain']} accepted a value with wildcards: {case['payload']!r}", nt, key, tags=tags)
+            return Verdict("violation", f"{fc} accepted a value with wildcards: {case['payload']!r}", nt, key, tags=tags)
         return Verdict("ok", "", nt, key, tags=tags + ("unjudged:wildcard",))
     if io.startswith("other:"):
-        return Verdict("violation", f"non-Sigma exception {io} for f|{case['chain']}: {case['payload']!r}", nt, key, tags=tags)
+        return Verdict("violation", f"non-Sigma exception {io} for {fc}: {case['payload']!r}", nt, key, tags=tags)
     if io.startswith("sigma:"):
         # rejecting is the admissible alternative; but a plain base64 modifier has no reason to reject
         if case["chain"] in ("base64", "base64offset"):
-            return Verdict("violation", f"f|{case['chain']} rejects plain payload {case['payload']!r}: {impl.get('msg')}", nt, key, tags=tags)
+            return Verdict("violation", f"{fc} rejects plain payload {case['payload']!r}: {impl.get('msg')}", nt, key, tags=tags)
         return Verdict("ok", "", nt, key, tags=tags)
     if case["kind"] == "wide":
         u16 = reply["utf16"]
         if u16 is None:
-            return Verdict("violation", f"payload has no UTF-16 encoding but f|{case['chain']} produced a value", nt, key, tags=tags)
+            return Verdict("violation", f"payload has no UTF-16 encoding but {fc} produced a value", nt, key, tags=tags)
         expect = ([0xFF, 0xFE] if case["chain"] == "utf16" else []) + u16
+        if impl.get("special"):
+            return Verdict("violation", (f"{fc}: {case['payload']!r} (no wildcard in the payload) -> value with {impl['special']} wildcard part(s): "
+                                         f"it matches byte strings other than the UTF-16 encoding {bytes(expect)!r}"), nt, key, tags=tags)
         if impl["bytes"] != expect:
             fid = "D18" if case["chain"] == "utf16" and impl["bytes"] == [0xEF, 0xBB, 0xBF] + u16 else None
-            return Verdict("violation", f"f|{case['chain']}: {case['payload']!r} -> bytes {bytes(impl['bytes'])!r}, UTF-16 encoding is {bytes(expect)!r}",
+            return Verdict("violation", f"{fc}: {case['payload']!r} -> bytes {bytes(impl['bytes'])!r}, UTF-16 encoding is {bytes(expect)!r}",
                            nt, key, finding=fid, tags=tags)
         st = "ok"
         if reply["model"] is None or reply["model"] != impl["value"]:
@@ -180,17 +286,17 @@ def judge(case, impl, reply):
         return Verdict(st, "model wideTrick differs" if st == "drift" else "", nt, key, tags=tags)
     if case["kind"] == "plain":
         if impl["values"] != [reply["spec"]]:
-            return Verdict("violation", f"f|{case['chain']}: {case['payload']!r} -> {''.join(map(chr, impl['values'][0]))!r} is not the Base64 text of its bytes", nt, key, tags=tags)
+            return Verdict("violation", f"{fc}: {case['payload']!r} -> {''.join(map(chr, impl['values'][0]))!r} is not the Base64 text of its bytes", nt, key, tags=tags)
         return Verdict("ok", "", nt, key, tags=tags)
     # offset
     if len(impl["values"]) != 3:
-        return Verdict("violation", f"f|{case['chain']} produced {len(impl['values'])} values", nt, key, tags=tags)
+        return Verdict("violation", f"{fc} produced {len(impl['values'])} values", nt, key, tags=tags)
     if not reply["noPad"]:
-        return Verdict("violation", f"f|{case['chain']}: {case['payload']!r}: a produced value contains '=' (depends on what follows the payload)", nt, key, tags=tags)
+        return Verdict("violation", f"{fc}: {case['payload']!r}: a produced value contains '=' (depends on what follows the payload)", nt, key, tags=tags)
     for ctx, ok in zip(case["ctxs"], reply["results"]):
         if ok is False:
             i = len(ctx["p"]) % 3
-            return Verdict("violation", (f"f|{case['chain']}: {case['payload']!r}: value #{i} {''.join(map(chr, impl['values'][i]))!r} does not occur in "
+            return Verdict("violation", (f"{fc}: {case['payload']!r}: value #{i} {''.join(map(chr, impl['values'][i]))!r} does not occur in "
                                          f"base64(prefix {ctx['p']} + payload + suffix {ctx['s']})"), nt, key, tags=tags)
     if impl["values"] != reply["model3"]:
         return Verdict("drift", f"model values {[''.join(map(chr, v)) for v in reply['model3']]} differ", nt, key, tags=tags)
